@@ -219,8 +219,16 @@ func ComputeLocksets(p *Prog) *Locksets {
 	// roots start with the empty lockset, the rest with TOP
 	root := map[*ssa.Function]bool{}
 	dead := map[*ssa.Function]bool{}
+	boundSync := map[*ssa.Function]bool{}
 	syncSites := map[*ssa.Function][]ssa.Instruction{}
 	for _, fn := range p.Fns {
+		if fn.Parent() == nil {
+			if sites := boundOnceSites(p, fn); len(sites) > 0 && len(p.Callers(fn)) == 0 {
+				syncSites[fn] = sites
+				boundSync[fn] = true
+				continue
+			}
+		}
 		if fn.Parent() != nil {
 			sites, ok := ls.closureSyncSites(fn)
 			if !ok {
@@ -264,7 +272,7 @@ func ComputeLocksets(p *Prog) *Locksets {
 				continue
 			}
 			var in lockset
-			if fn.Parent() != nil {
+			if fn.Parent() != nil || boundSync[fn] {
 				for _, s := range syncSites[fn] {
 					in = meet(in, ls.at[s])
 				}
@@ -414,4 +422,30 @@ func (ls *Locksets) deadMethod(fn *ssa.Function) bool {
 		})
 	}
 	return !conv
+}
+
+// boundOnceSites: the call sites `once.Do(x.m)` where the bound method value
+// x.m denotes fn (so fn runs synchronously under the caller's locks).
+func boundOnceSites(p *Prog, fn *ssa.Function) []ssa.Instruction {
+	var out []ssa.Instruction
+	if fn.Object() == nil {
+		return nil
+	}
+	for _, g := range p.Fns {
+		eachInstr(g, func(in ssa.Instruction) {
+			c, ok := in.(*ssa.Call)
+			if !ok || calleeName(c) != "(*sync.Once).Do" || len(c.Call.Args) < 2 {
+				return
+			}
+			mc, ok := c.Call.Args[1].(*ssa.MakeClosure)
+			if !ok {
+				return
+			}
+			w := mc.Fn.(*ssa.Function)
+			if w.Synthetic != "" && w.Object() == fn.Object() {
+				out = append(out, in)
+			}
+		})
+	}
+	return out
 }
